@@ -703,6 +703,10 @@ def triage(binary, prop, st, fl):
     nrep = 2 if time.time() - t1 > 20 else 3
     while len(results) < nrep:
         results.append(run_replay(binary, prop, path, extra=extra, trace=True, timeout=150))
+    if fl["type"] == "crash" and any("allocator is out of memory" in (r.get("stderr") or "") or "failed to allocate" in (r.get("stderr") or "") for r in results):
+        # the machine (or the sanitizer's allocator) refused a large reservation: a resource limit of the run, no verdict
+        print("NOTE allocation refused by the sanitizer's allocator (resource limit), no verdict: %s" % path)
+        return None
     if fl["type"] == "crash":
         if not all(r["crashed"] for r in results):
             if any(r["crashed"] for r in results):
